@@ -21,22 +21,22 @@ let rec take_pairs k l acc =
   | e :: n :: r -> take_pairs (k - 1) r ((n_of_tok e, n_of_tok n) :: acc)
   | _ -> failwith "bad oracle table"
 
-type hdr = { capn : n; caps : n; limn : n; lims : n; h0 : n; tc : (n * n) list; tp : (n * n) list }
+type hdr = { capn : n; caps : n; limn : n; lims : n; h0 : n; gor : int; tc : (n * n) list; tp : (n * n) list }
 
 let parse_header h =
   match h with
-  | cn :: cs :: ln :: ls :: h0 :: _g :: "FC" :: k :: r ->
+  | cn :: cs :: ln :: ls :: h0 :: g :: "FC" :: k :: r ->
     let tc, r = take_pairs (int_of_string k) r [] in
     (match r with
      | "FP" :: k :: r ->
        let tp, r = take_pairs (int_of_string k) r [] in
        if r <> [] then failwith "trailing header";
        { capn = n_of_tok cn; caps = n_of_tok cs; limn = n_of_tok ln; lims = n_of_tok ls;
-         h0 = n_of_tok h0; tc; tp }
+         h0 = n_of_tok h0; gor = int_of_string g; tc; tp }
      | _ -> failwith "bad header")
   | _ -> failwith "bad header"
 
-type pb = { bt : batch; bid : int; hold : int; perm : int list }
+type pb = { bt : batch; bid : int; hold : int; perm : int list; flags : int }
 
 let rec take n l = if n = 0 then ([], l) else match l with x :: r -> let (a, b) = take (n - 1) r in (x :: a, b) | [] -> failwith "short"
 
@@ -57,8 +57,9 @@ let parse_batch gctr toks =
     (match r with
      | "PERM" :: ps ->
        if List.length ps <> n then failwith "bad perm";
-       { bt = { b_id = n_of_tok b; b_ordered = (ord = "1"); b_events = es };
-         bid = int_of_string b; hold = int_of_string hold; perm = List.map int_of_string ps }
+       { bt = { b_id = n_of_tok b; b_ordered = (int_of_string ord land 1 = 1); b_events = es };
+         bid = int_of_string b; hold = int_of_string hold; perm = List.map int_of_string ps;
+         flags = int_of_string ord }
      | _ -> failwith "bad batch")
   | _ -> failwith "bad batch"
 
@@ -87,6 +88,7 @@ let parse_obs (size_of : int -> int) (batch_of_g : string -> int) obs =
   let lq = ref [] and l = ref [] and seenq = ref false in
   let q = ref (N0, N0) and s = ref (N0, N0) and m = ref true and w = ref false and busy = ref [] in
   let zs = ref [] and term = ref [] and hasq = ref false in
+  let probes = ref [] and s2 = ref None in
   let handled = Hashtbl.create 16 in
   let push o = l := o :: !l; if not !seenq then lq := o :: !lq in
   List.iter (fun t ->
@@ -112,8 +114,10 @@ let parse_obs (size_of : int -> int) (batch_of_g : string -> int) obs =
     | ["M"; ok] -> m := (ok = "1")
     | ["BZ"; b] -> busy := int_of_string b :: !busy
     | ["BT"; b] -> term := int_of_string b :: !term
+    | ["PE"; k; r] -> probes := (k, r) :: !probes
+    | ["S2"; hn; hs] -> s2 := Some (hn, hs)
     | _ -> failwith ("bad obs token " ^ t)) obs;
-  (List.rev !lq, List.rev !l, !q, !s, !m, !w, List.rev !busy, List.rev !zs, List.rev !term, !hasq, handled)
+  (List.rev !lq, List.rev !l, !q, !s, !m, !w, List.rev !busy, List.rev !zs, List.rev !term, !hasq, handled, List.rev !probes, !s2)
 
 (* handled count of an ordered batch after the first j arrivals of perm: longest prefix 0..k-1 arrived *)
 let prefix_len arrived = let rec go k = if List.mem k arrived then go (k + 1) else k in go 0
@@ -131,7 +135,11 @@ let eval inp obs =
      the specification can be evaluated on the log; the semaphore samples are still compared. *)
   let flags = String.concat "" (filter_map (fun g -> match g with ["O"; f] -> Some f | _ -> None) bts) in
   let no_released = String.contains flags 'r' and no_check = String.contains flags 'c' in
-  let bts = List.filter (fun g -> match g with ["S"; _] | ["O"; _] -> false | _ -> true) bts in
+  (* "M k" (Config.MaxTasks), "T ms" (EventsSemaphoreTimeout) only change how Enqueue callers wait;
+     "E kind" = second-use probes after Stop (Enqueue / Start+Enqueue / Stop again / empty batch):
+     their outcome tokens PE.kind.result are scheduler's choice for empty batches, but a non-empty
+     batch must be refused and the semaphore must not move (S2 = S) *)
+  let bts = List.filter (fun g -> match g with ["S"; _] | ["O"; _] | ["M"; _] | ["T"; _] | ["E"; _] -> false | _ -> true) bts in
   let h = if no_check then { h with tc = [] } else h in
   let gctr = ref 0 in
   let bs = List.map (parse_batch gctr) bts in
@@ -139,9 +147,9 @@ let eval inp obs =
   let batch_of_g g =
     (match List.find_opt (fun x -> List.exists (fun e -> tok_of_n e.pg = g) x.bt.b_events) bs with
      | Some x -> x.bid | None -> -1) in
-  let (lq, l, (qn, qs), (sn, ss), m, w, busy, zs, term, hasq, handled) =
+  let (lq, l, (qn, qs), (sn, ss), m, w, busy, zs, term, hasq, handled, probes, s2) =
     (try parse_obs size_of batch_of_g obs
-     with _ -> ([], [], (N0, N0), (N0, N0), false, false, [], [], [], false, Hashtbl.create 1)) in
+     with _ -> ([], [], (N0, N0), (N0, N0), false, false, [], [], [], false, Hashtbl.create 1, [], None)) in
   let parsed = (obs <> [] && l <> []) || obs = [] in
   let refused = busy @ term in
   let find b = List.find_opt (fun x -> x.bid = b) bs in
@@ -198,7 +206,17 @@ let eval inp obs =
       not ((no_released && String.length t > 1 && String.sub t 0 2 = "R.")
            || (no_released && String.length t > 1 && String.sub t 0 2 = "A." && List.mem (String.sub t 2 (String.length t - 2)) bad_gs)
            || (no_check && String.length t > 1 && String.sub t 0 2 = "C."))) toks in
-  let toks s = project (filter_map tok_of_pout (List.rev (plog s))) in
+  (* batches enqueued with notifyAnnounces == nil / done == nil: those callbacks are not observed
+     (a nil done is only used by the harness where completion stays observable, same rule here) *)
+  let last_bid = (match List.rev bs with x :: _ -> x.bid | [] -> -1) in
+  let no_done x = x.flags land 4 <> 0 && h.gor = 1 && not stop_mode && x.bid <> last_bid in
+  let hidden = List.concat (List.map (fun x ->
+      (if x.flags land 2 <> 0 then ["N." ^ string_of_int x.bid ^ "."] else [])
+      @ (if no_done x then ["Z." ^ string_of_int x.bid] else [])) bs) in
+  let hide toks = List.filter (fun t -> not (List.exists (fun p ->
+      t = p || (String.length p > 0 && p.[String.length p - 1] = '.' && String.length t >= String.length p
+                && String.sub t 0 (String.length p) = p)) hidden)) toks in
+  let toks s = hide (project (filter_map tok_of_pout (List.rev (plog s)))) in
   let pre = toks sq in
   let all = toks sf in
   let rec drop k l = if k = 0 then l else match l with _ :: r -> drop (k - 1) r | [] -> [] in
@@ -208,6 +226,8 @@ let eval inp obs =
   let stok = Printf.sprintf "S.%s.%s" (tok_of_n (held_n sf)) (tok_of_n (held_s sf)) in
   let mobs = pre @ (if hasq || not stop_mode then [qtok] else []) @ post @ [stok]
              @ (if warned sf then ["W"] else []) @ ["M.1"]
+             @ List.map (fun (k, r) -> "PE." ^ k ^ "." ^ r) probes
+             @ (match s2 with Some _ -> [Printf.sprintf "S2.%s.%s" (tok_of_n (held_n sf)) (tok_of_n (held_s sf))] | None -> [])
              @ List.map (fun b -> "BZ." ^ string_of_int b) busy
              @ List.map (fun b -> "BT." ^ string_of_int b) term in
   let refused_n = List.map (fun b -> n_of_z (ZA.of_int b)) refused in
@@ -216,6 +236,8 @@ let eval inp obs =
     c15_first_failure h.limn h.h0 btl refused_n lq l qn qs sn ss m w in
   let spec_ok, note =
     if not parsed then Some false, "unparsable-observation" else
+    if List.exists (fun (k, r) -> (k = "0" || k = "1") && r = "ok") probes then Some false, "spec-clause=30" else
+    if (match s2 with Some (a, b) -> a <> tok_of_n sn || b <> tok_of_n ss | None -> false) then Some false, "spec-clause=31" else
     if no_released then begin
       (* still decidable without Released lines: far-future, and "zero after Stop once every accepted
          batch is done" (the wrapper of New must release the semaphore whether or not anybody listens) *)
@@ -233,7 +255,7 @@ let eval inp obs =
   let mparse = (try Some (parse_obs size_of batch_of_g mfull) with _ -> None) in
   let model_spec_ok =
     (match mparse with
-     | Some (lq, l, (qn, qs), (sn, ss), m, w, _, _, _, hq, _) ->
+     | Some (lq, l, (qn, qs), (sn, ss), m, w, _, _, _, hq, _, _, _) ->
        tok_of_n (if hq then check lq l qn qs sn ss m w else check l l sn ss sn ss m w) = "0"
      | None -> false) in
   let nontrivial =
